@@ -1,4 +1,4 @@
-; minimal witnesses of the three open findings (see notes/C15.md)
+; minimal inputs of the findings (see notes/C15.md): print = still open; declaration pairing (x2) and FindScopes(typedef) = repaired, kept as regression inputs
 (finder false false (Scalar) (node PrintStmt 0 0 () ((const StringLiteral "'val'") (msym Scalar "summed" "summed" (sym VariableSymbol "summed" "summed" none) none))) (ir (print ((s "val") (v "summed")))) FindVariables)
 (finder false true (Scalar) (node VariableDeclaration 0 0 ((grp (e (msym Scalar "n" "n" (sym VariableSymbol "n" "n" none) none))) (junk "None")) ()) (ir (decl ((v "n")))) FindVariables)
 (findscopes true 1 (node Section 0 0 ((grp (node TypeDef 1 1 ((grp (node Comment 2 2 () ()))) ()))) ()) (ir (sect ((typedef "t0" ((comment "c0")))))))
